@@ -205,7 +205,8 @@ SINGLE_LINE_FORMS = {"line", "rsdoc", "rsinner", "hash", "sqlline", "trail", "ht
 END_SPELLINGS = ["</block>", "</ block >", "< /block>", "</block >"]
 
 
-def render(items, ext, variant=0, crlf=False, multibyte=False, tag_attrs=None, bare=False, endsp=None, mixed_md=False, container=None):
+def render(items, ext, variant=0, crlf=False, multibyte=False, tag_attrs=None, bare=False, endsp=None, mixed_md=False, container=None,
+           mlattr=False, no_eol=False):
     """-> dict(name, text, starts=[{name,line,col,item,pos}], comments={item: (start_byte, end_byte)},
                lines=[...])  Items: [{k: code|str|cmt, tags: [...]}]"""
     fl = forms(ext)
@@ -242,6 +243,8 @@ def render(items, ext, variant=0, crlf=False, multibyte=False, tag_attrs=None, b
                 if t == "S":
                     sidx += 1
                     extra = (tag_attrs or {}).get(sidx, "")
+                    if mlattr:
+                        extra += ' ml="two\x00lines"'       # \x00 = line break inside the quoted value where the form allows
                     texts.append(("S", "<block>" if bare else '<block name="n%d"%s>' % (sidx, extra), p, "n%d" % sidx))
                 else:
                     es = END_SPELLINGS[endsp % 4] if endsp is not None else ("</block>" if (n + p) % 3 else "</ block >")
@@ -271,6 +274,21 @@ def render(items, ext, variant=0, crlf=False, multibyte=False, tag_attrs=None, b
                     pre = "%s%d " % (note, li)
                     where.append((li, len(pre), k, p, nm))
                     clines.append(pre + tx + " x")
+            if mlattr and texts and not bare:
+                if form in SINGLE_LINE_FORMS:
+                    clines = [l.replace("\x00", " ") for l in clines]
+                else:
+                    # a quoted attribute value that continues on the next line of the same comment
+                    ncl, nwh = [], []
+                    for li, l in enumerate(clines):
+                        pos = 0
+                        for part in l.split("\x00"):
+                            for (li_, off, k, p, nm) in where:
+                                if li_ == li and pos <= off < pos + len(part) + 1:
+                                    nwh.append((len(ncl), off - pos, k, p, nm))
+                            ncl.append(part)
+                            pos += len(part) + 1
+                    clines, where = ncl, nwh
             flines, c0, cl = wrap(form, clines, ext, n)
             base = len(out_lines)
             for (li, off, k, p, nm) in where:
@@ -294,7 +312,11 @@ def render(items, ext, variant=0, crlf=False, multibyte=False, tag_attrs=None, b
             s_["col_chars"] += 2
         spans = {n_: (l0, c0 + 2, l1, c1 + 2, inc) for n_, (l0, c0, l1, c1, inc) in spans.items()}
     nl = "\r\n" if crlf else "\n"
-    text = nl.join(out_lines) + nl
+    if no_eol:
+        # the file ends with the last character of its last line: no line terminator, no trailing blank lines
+        while out_lines and out_lines[-1] == "":
+            out_lines.pop()
+    text = nl.join(out_lines) + ("" if no_eol else nl)
     # byte offsets of line starts
     offs, o = [], 0
     for l in out_lines:
@@ -308,4 +330,6 @@ def render(items, ext, variant=0, crlf=False, multibyte=False, tag_attrs=None, b
     for n, (l0, c0, l1, c1, incl_nl) in spans.items():
         cspans[n] = (offs[l0] + len(out_lines[l0][:c0].encode()),
                      offs[l1] + len(out_lines[l1][:c1].encode()) + (len(nl) if incl_nl else 0))
+    total = len(text.encode())
+    cspans = {n: (a, min(b, total)) for n, (a, b) in cspans.items()}
     return {"name": file_name(ext), "text": text, "starts": starts, "comments": cspans, "lines": out_lines}
